@@ -34,6 +34,14 @@ class Unconvertible(object):
         raise ValueError("cannot serialise this")
 
 
+def cfg_snapshot(c):
+    """Field-by-field snapshot of a Config (containers by content)."""
+    d = dict(vars(c))
+    d["classes"] = sorted((str(k), repr(v)) for k, v in c.classes.items())
+    d["serialize_handlers"] = sorted((repr(k), repr(v)) for k, v in c.serialize_handlers.items())
+    return json.dumps(d, sort_keys=True, default=repr)
+
+
 class World(object):
     """A dispatcher with a registry of recorder callables; calls[j] counts body executions attributed to alias j."""
 
@@ -41,6 +49,8 @@ class World(object):
         self.calls = {}
         self.cfg = jsonrpclib.config.Config(version=1.0 if sv == "1" else 2.0)
         self.d = SimpleJSONRPCDispatcher(config=self.cfg)
+        self.cfg0 = cfg_snapshot(self.cfg)
+        self.default0 = cfg_snapshot(jsonrpclib.config.DEFAULT)
         self.excinfo = {}
         w = self
 
@@ -219,7 +229,6 @@ def run_body(text, sv, dk, rnd, src, world=None, jc=None):
     if jc == "reject":
         bk, entries = "unparseable", []
     world.calls.clear()
-    cfg_before = enc(vars(world.cfg), None)
     out = {"raised": False, "exc": "", "kind": "empty", "array": False, "replies": []}
     try:
         res = world.d._marshaled_dispatch(text, world.custom if dk == "custom" else None)
@@ -272,7 +281,8 @@ def run_body(text, sv, dk, rnd, src, world=None, jc=None):
     return {"sv": sv, "dk": dk, "src": src, "body": text if len(text) < 300 else text[:300] + "...", "bk": bk, "entries": ents,
             "out": {"raised": out["raised"], "exc": out["exc"], "kind": out["kind"], "array": out["array"],
                     "replies": [enc(r) for r in out["replies"]], "flags": flags},
-            "client": client, "cfgsame": enc(vars(world.cfg), None) == cfg_before,
+            "client": client,
+            "cfgsame": cfg_snapshot(world.cfg) == world.cfg0 and cfg_snapshot(jsonrpclib.config.DEFAULT) == world.default0,
             "total_calls": sum(world.calls.values())}
 
 
@@ -306,6 +316,28 @@ def gen_jsonclass(n, rnd):
         r = run_body(dumps(body, rnd), sv, dk, rnd, "jsonclass", jc="reject" if use_bad else "ok")
         if r:
             recs.append(r)
+    return recs
+
+
+def gen_hist(n, rnd):
+    """Histories: several bodies served one after the other by the SAME dispatcher (C13: a reply depends on its own
+    request only; serving never changes the Config objects)."""
+    recs = []
+    for _ in range(n):
+        sv, dk = rnd.choice("12"), rnd.choice(["default", "default", "custom"])
+        world = World(sv, rnd)
+        if rnd.random() < 0.3:
+            world.cfg = world.d.json_config = jsonrpclib.config.DEFAULT if sv == "2" else world.cfg
+            world.cfg0 = cfg_snapshot(world.cfg)
+        for _step in range(rnd.randint(2, 5)):
+            m = rnd.choice([0, 0, 0, 1, 2, 3])
+            ents = [make_entry(random_entry_class(rnd), j + 1, rnd) for j in range(max(1, m))]
+            text = dumps(ents[0] if m == 0 else ents, rnd)
+            if rnd.random() < 0.08:
+                text = text[:rnd.randint(0, len(text))]
+            r = run_body(text, sv, dk, rnd, "history", world=world)
+            if r:
+                recs.append(r)
     return recs
 
 
@@ -380,6 +412,9 @@ if __name__ == "__main__":
     elif mode == "jc":
         n, out, seed = int(sys.argv[2]), sys.argv[3], int(sys.argv[4])
         recs = gen_jsonclass(n, random.Random(seed))
+    elif mode == "hist":
+        n, out, seed = int(sys.argv[2]), sys.argv[3], int(sys.argv[4])
+        recs = gen_hist(n, random.Random(seed))
     elif mode == "batch":
         n, out, seed = int(sys.argv[2]), sys.argv[3], int(sys.argv[4])
         recs = gen_batch(n, random.Random(seed))
